@@ -37,6 +37,9 @@ CLAIMED["C10"] = ("sync histories of 1..3 invocations with solver-chosen truth k
     "never opened for writing, report == byte changes: " + _SY, "DESIGN.md#c10")
 CLAIMED["C11"] = ("preservation: (S) RewriteAtQuery on hand-built modules with symbolic identifiers (target among siblings sharing names), "
     "(F) the real sync on the in-memory FS over target modules x position x trailing newline x pre-state with the named definition masked", "DESIGN.md#c11")
+CLAIMED["C20"] = ("rejected / failing invocations: the argv combination, the crash index k of an injected OSError (before open / after truncating open / "
+    "mid-write) and the index j of a failing emitter call are solver variables over the real __main__.main / ground_truth / sync_properties on the "
+    "in-memory FS; every file afterwards is untouched or complete and parseable", "DESIGN.md#c20")
 NA = {
     "C19": "gen: every data path crosses importlib / inspect.getsource / compile+exec / file output, no symbolic data path is left; what remains is enumeration of a few concrete configurations, which is not this technique (DESIGN.md §C19)",
 }
